@@ -141,7 +141,7 @@ func gen(r *sim.Rng, tier string) *sim.Case {
 			op := sim.Op{Op: opNames[k], K: r.N(nKeys), V: (t+1)<<8 | (i + 1)}
 			switch op.Op {
 			case "Delete":
-				for j := r.Range(1, 2); j > 0; j-- {
+				for j := r.Range(0, 3); j > 0; j-- {
 					op.Ks = append(op.Ks, r.N(nKeys))
 				}
 			case "GetWithMap":
